@@ -551,9 +551,21 @@ def run_real(spec, tier, seed, res):
     from hv import hx, scen, realwork
     I = hx.inputs
     year = spec['year']
-    for fam in spec['families']:
-        for p in scen.personas(seed, year, fam, spec['n']):
-            out, tv, t = realwork.traced(p)
+    runs = []
+    for fam, p in [(fam, p) for fam in spec['families'] for p in scen.personas(seed, year, fam, spec['n'])] + list(scen.directed_personas(year, seed, 1)):
+        out, tv, t = realwork.traced(p)
+        runs.append((p, out, tv))
+        # the numbered copies of the statements requested by name, last copy first, next to the return: every copy exists
+        # before the lines of the first one are evaluated
+        copies = sorted({k_.split('.')[0] for k_ in tv.stored if ':' in k_.split('.')[0] and k_.split('.')[0].split(':')[0] in realwork.INPUT_FORM_NAMES}, reverse=True)
+        if len(copies) >= 2 and out.exc is None:
+            q = scen.Persona(year, p.family, p.key, overrides=dict(p.answers))
+            q.nc = p.nc
+            out2, tv2, t2 = realwork.traced(q, forms=copies + list(p.forms()), file_map=dict(p.answers))
+            runs.append((q, out2, tv2))
+            res.count('real_runs_with_copies_requested')
+    for p, out, tv in runs:
+        if True:
             res.evaluations += 1
             imap = getattr(out.solver, '_input_map', {})
             for (key, outcome, value, provided, raw, attempt) in tv.input_reads:
